@@ -302,6 +302,18 @@ pub fn run(run: &mut Run) -> Finish {
             l.case(true, h64(&(m.file.is_some(), m.debug_id.is_some(), m.ignore.len(), k % 9)));
         }
     });
+    let ng = long_count();
+    run.par_slice("G: long maps of 15..1000 tokens, three constructions, with derived maps", 7, ng * 3, |idx, l| {
+        let k = idx & ((1 << 40) - 1);
+        let m = long_map(k / 3);
+        let (v, ran) = check_regular(&m, (k % 3) as usize, true);
+        for x in v {
+            l.violation(idx, x);
+        }
+        if ran {
+            l.case(true, h64(&("G", k)));
+        }
+    });
     let nx = x_count();
     run.par_slice("X: extreme coordinates (deltas of 2^31 and more in both directions), three constructions", 6, nx * 3, |idx, l| {
         let k = idx & ((1 << 40) - 1);
